@@ -301,10 +301,4 @@ def replay(body):
         print("events of the second connection:", [NAMES.get(c) for c in codes], "escaped:", r.escaped)
         print("REPLAY:", "VIOLATION reproduced: %s" % m if (m or r.escaped) else "property holds on this input")
         return 1 if (m or r.escaped) else 0
-    r = simnet.run_impl(sc)
-    tr = simnet.canon_trace(r.trace)
-    codes = fam.event_codes(tr)
-    print("events:", [NAMES.get(c) for c in codes], "escaped:", r.escaped)
-    m = monitor(codes) if not any(it[0] == 7 for it in tr) else None
-    print("REPLAY:", "VIOLATION reproduced: %s" % m if (m or r.escaped) else "property holds on this input")
-    return 1 if (m or r.escaped) else 0
+    return fam.replay_generic(body, {"C07:server-steps-x-app-reactions": oracle}, show=80)
